@@ -278,10 +278,11 @@ class Listener(plumpy.ProcessListener):
         may issue a request from it, like an overridden on_exit_running / on_entering that calls self.kill()"""
         n = self.counts[name] = self.counts.get(name, 0) + 1
         op = self.plan.get((name, n))
-        if op is not None and self.run is not None and getattr(self.run.p, '_stepping', True):
-            # only during a step's closing transition: a control call from inside a transition that was itself started by a
-            # control call outside a step is a re-entrant transition, which the state machine documents as unsupported
-            # ("Cannot call transition_to when already transitioning state")
+        if op is not None and self.run is not None and self.run.in_stepper:
+            # only during a step's closing transition, i.e. from inside the stepping task's own callback (the only transitions
+            # made there): a control call from inside a transition that was itself started by a control call outside a step is
+            # a re-entrant transition, which the state machine documents as unsupported ("Cannot call transition_to when
+            # already transitioning state"). (Decided by the harness itself, not by reading the private `_stepping`.)
             self.run.term_trans = bool(state is not None and state.is_terminal())
             try:
                 self.run.do(op, from_listener=True)
@@ -329,6 +330,7 @@ class Run:
         self.lis = Listener(self, plan)
         p.add_process_listener(self.lis)
         self.term_trans = False          # a planned request is being issued from inside the transition into a terminal state
+        self.in_stepper = False          # the callback that is running is the stepping task's
         self.term_kills = []
         if plan and any(k[0] in ('exi', 'ent') for k in plan):
             p.add_state_event_callback(StateEventHook.EXITING_STATE, lambda sm, h, st: self.lis.hook_hit('exi', st))
@@ -508,7 +510,11 @@ class Run:
                 handle = frame.f_locals.get('self') if frame is not None else None
                 flag = next((fl for h, fl in self.cb_handles if h is handle), None)
                 name = f'usercb {flag}' if flag else None
-            self.loop.step_one()
+            self.in_stepper = name == 'stepper'
+            try:
+                self.loop.step_one()
+            finally:
+                self.in_stepper = False
             if name is not None:
                 self.ops.append('tick ' + name)
                 self.observe('none')
@@ -676,6 +682,18 @@ def explore(ctx, cases, monitors, chunk=400):
         chunks.append(cur); spans.append(curspan)
     outs = ctx.model.run_parallel('pm', chunks)
     divergences, failures = [], []
+    # the model with listeners (`pmodel pml`) given no plan must BE the model (`pmodel pm`): same lines, same output. (The twins
+    # `…L` of lean/PlumpyModel/PM/Listener.lean repeat the functions of PM/Model.lean that contain a notification point; this
+    # keeps them from drifting apart.)
+    outs_twin = ctx.model.run_parallel('pml', chunks)
+    if outs is not None and outs_twin is not None:
+        for chunk_i, (a_out, b_out) in enumerate(zip(outs, outs_twin)):
+            if a_out != b_out:
+                j = next((k for k, (x, y) in enumerate(zip(a_out, b_out)) if x != y), min(len(a_out), len(b_out)))
+                divergences.append(dict(case=dict(program='(model twins)', chunk=chunk_i, line=j, input=chunks[chunk_i][max(0, j - 12):j + 1]),
+                                        op_index=j, ops=chunks[chunk_i][max(0, j - 12):j + 1],
+                                        impl='pm : ' + (a_out[j] if j < len(a_out) else '(missing)'),
+                                        model='pml: ' + (b_out[j] if j < len(b_out) else '(missing)'), stream='twin'))
     distinct = set()
     phase_hist = {}
     validated = 0
@@ -735,10 +753,21 @@ def fix_case(case):
     return prog, sched
 
 
-def explore_listeners(ctx, cases, monitors):
-    """impl-only stream: control requests issued from inside listener notifications (during transitions).
-    cases: (name, prog, schedule, plan). The process-control model has no listener oracle, so there is no correspondence
-    here; the Python monitors decide."""
+def plan_line(plan):
+    """the oracle of a listener case as a line of the `pmodel pml` protocol"""
+    return 'plan ' + ' '.join(f'{k[0]}:{k[1]}:{v}' for k, v in plan.items())
+
+
+def listener_head(prog, plan):
+    """program, plan (and the StateEntryFailed marker of a program whose required output is never emitted) for `pmodel pml`"""
+    return prog_lines(prog) + [plan_line(plan)] + (['entryfails'] if prog.get('missing_output') else [])
+
+
+def explore_listeners(ctx, cases, monitors, chunk=400):
+    """control requests issued from inside listener notifications and state-event callbacks (during transitions).
+    cases: (name, prog, schedule, plan). The real runs are decided by the Python monitors AND compared, observation by observation
+    after every op, with the process-control model with listeners (lean/PlumpyModel/PM/Listener.lean, `pmodel pml`), which gets
+    the same program, the plan and the ops the harness performed."""
     import multiprocessing as mp
     work = [(prog, sched, monitors, plan) for _, prog, sched, plan in cases]
     with mp.Pool(ctx.workers) as pool:
@@ -752,4 +781,47 @@ def explore_listeners(ctx, cases, monitors):
             f['case'] = dict(program=name, prog=prog, schedule={str(k): v for k, v in sched.items()},
                              listener_plan=[[k[0], k[1], v] for k, v in plan.items()], ops=rec['ops'])
             failures.append(f)
-    return dict(evaluations=len(cases), failures=failures, listener_requests_issued=issued)
+    # model
+    chunks, spans = [], []
+    cur, curspan = [], []
+    for (name, prog, sched, plan), rec in zip(cases, recs):
+        head = listener_head(prog, plan)
+        curspan.append((len(cur), len(head), len(rec['ops'])))
+        cur.extend(head + rec['ops'])
+        if len(curspan) >= chunk:
+            chunks.append(cur); spans.append(curspan); cur, curspan = [], []
+    if curspan:
+        chunks.append(cur); spans.append(curspan)
+    outs = ctx.model.run_parallel('pml', chunks)
+    divergences = []
+    distinct = set()
+    validated = 0
+    ci = 0
+    for chunk_i, spanlist in enumerate(spans):
+        out = outs[chunk_i] if outs is not None else None
+        for (start, nhead, nops) in spanlist:
+            name, prog, sched, plan = cases[ci]
+            rec = recs[ci]
+            if out is not None:
+                mobs = out[start + nhead:start + nhead + nops]
+                validated += 1
+                if len(mobs) != len(rec['obs']):
+                    divergences.append(dict(case=dict(program=name, prog=prog, schedule={str(k): v for k, v in sched.items()},
+                                                      listener_plan=[[k[0], k[1], v] for k, v in plan.items()]),
+                                            op_index=len(mobs), ops=rec['ops'], impl='(%d observations)' % len(rec['obs']),
+                                            model='(%d observations)' % len(mobs), stream='listener'))
+                for j, (a, b) in enumerate(zip(rec['obs'], mobs)):
+                    if 'stepping=?' in a:
+                        b = re.sub(r'stepping=[01]', 'stepping=?', b)
+                    if 'closed=?' in a:
+                        b = re.sub(r'closed=[01]', 'closed=?', b)
+                    if a != b:
+                        divergences.append(dict(case=dict(program=name, prog=prog, schedule={str(k): v for k, v in sched.items()},
+                                                          listener_plan=[[k[0], k[1], v] for k, v in plan.items()]),
+                                                op_index=j, ops=rec['ops'][:j + 1], impl=a, model=b, stream='listener'))
+                        break
+            if rec['listener_ops']:
+                distinct.add(hash((name, tuple(rec['obs']))))
+            ci += 1
+    return dict(evaluations=len(cases), failures=failures, listener_requests_issued=issued, divergences=divergences,
+                traces_validated=validated, distinct_nontrivial=len(distinct))
